@@ -176,6 +176,7 @@ func init() {
 				c.Count("bases_parseable", int64(len(parsed)))
 			}
 			run := func(label, base, ref, kind string) {
+				c.CurCase(func() *fw.Case { return &fw.Case{Kind: "c06", S: fw.Strs(base, ref, kind)} })
 				c.Eval()
 				f, ok := c06Eval(base, ref, kind)
 				if ok {
